@@ -13,7 +13,7 @@ import json, math, random
 from . import common as C
 
 PID = "C11"
-MUTANTS = ["X_wrong_sum", "x_unnormalised", "mass_mode_as_number"]
+MUTANTS = ["X_wrong_sum", "x_unnormalised", "mass_mode_as_number", "stale_norm", "mass_unit_blind"]
 
 
 def cfg(maxk, pvals, mvals, emit):
@@ -54,8 +54,12 @@ def concretisations(rec, nconc, rnd):
         else:
             props = [draw_positive(rnd) for _ in range(k)]
         form = "string" if (rec["cls"] == "material" and j % 3 == 0 and all(1e-4 <= x < 1e15 for x in props)) else "dict"
-        out.append({"names": names, "natural": natural, "form": form,
-                    "inp": {"A.p.%d" % (i + 1): props[i] for i in range(k)}})
+        inp = {"A.p.%d" % (i + 1): props[i] for i in range(k)}
+        # further inputs some scenario kinds use: the amount added afterwards, the second operand's proportions
+        inp["A.q"] = 2.0 if j == 0 else draw_positive(rnd)
+        for i in range(k):
+            inp["B.p.%d" % (i + 1)] = float(rec["p"][k - 1 - i]) if j == 0 else draw_positive(rnd)
+        out.append({"names": names, "natural": natural, "form": form, "inp": inp})
     return out
 
 
@@ -98,7 +102,7 @@ def run(replay=None):
     nontrivial, kinds = set(), {}
     nobl = 0
     for (rec, conc), (st, det) in zip(cases, res):
-        key = (rec["kind"], rec["cls"], rec["mode"], rec["k"], tuple(rec["scale"]))
+        key = (rec["kind"], rec["cls"], rec["mode"], rec["k"], tuple(rec["scale"]), rec["j"])
         kinds["/".join(map(str, key[:3]))] = kinds.get("/".join(map(str, key[:3])), 0) + 1
         nobl += len(rec["obl"])
         if st == "ok":
